@@ -372,15 +372,13 @@ fn spec_root(e: &ExpressionTree, ev: &dyn Fn(&ExpressionTree) -> Ev) -> (Expect,
         },
         ExpressionTree::In { is_not, operand, values } => {
             // x IN (v1, v2) means x = v1 OR x = v2; x NOT IN (v1, v2) means x != v1 AND x != v2 — evaluated with the implementation's own `=`
-            let mut acc = !*is_not == false; // IN starts false, NOT IN starts true
-            if *is_not { acc = true; }
+            // decided only when every member comparison has a value: whether an error in a later member surfaces
+            // after an earlier member already decided the result is not fixed by the sentence
+            let mut acc = *is_not;
             for v in values {
                 let c = ExpressionTree::Compare { operator: if *is_not { CompareOperator::NotEqual } else { CompareOperator::Equal }, left: operand.clone(), right: Box::new(v.clone()) };
                 match ev(&c) {
-                    Ev::Ok(b) => {
-                        if *is_not { acc = acc && b.bool(); if !acc { break; } } else { acc = acc || b.bool(); if acc { break; } }
-                    }
-                    Ev::Panic(_) => return (Unspecified, ""),
+                    Ev::Ok(b) => { if *is_not { acc = acc && b.bool(); } else { acc = acc || b.bool(); } }
                     _ => return (Unspecified, ""),
                 }
             }
